@@ -4,6 +4,7 @@ C01 — erosion and dilation (`_morph.cpp`: `erode`, `dilate`, `fast_binary_dila
 -/
 import Mahotas.Model.Border
 import Mahotas.Model.DType
+import Mahotas.Generated.Tables
 namespace Mahotas.C01
 open Mahotas
 
@@ -234,23 +235,160 @@ def diskElem (d : Nat) (r : Nat) : Array Int :=
     let s := (k.map fun x => (x - (r : Int)) * (x - (r : Int))).foldl (· + ·) 0
     if s < ((r * r : Nat) : Int) then (1 : Int) else 0).toArray
 
+/-! ### the Python dispatch: `get_structuring_elem(A, Bc)` (`morph.py`) -/
+
+/-- the `Bc` argument of `get_structuring_elem` / `erode` / `dilate` as Python sees it -/
+inductive BcArg where
+  /-- `Bc is None` -/
+  | none
+  /-- `type(Bc) == int` (a Python integer of any size and sign) -/
+  | int (v : Int)
+  /-- an ndarray with integer or boolean entries: its shape and its entries in C order -/
+  | array (bshape : List Nat) (bc : Array Int)
+
+/-- the two `ValueError`s of `get_structuring_elem` -/
+inductive SEError where
+  /-- `A.ndim != Bc.ndim` -/
+  | rank
+  /-- `Bc.size == 0` -/
+  | empty
+deriving DecidableEq, Repr
+
+/-- `(len(A.shape), Bc) in translate_sizes` and `translate_sizes[len(A.shape), Bc]`, over the table
+    extracted from `morph.py` (`Generated.translateSizes`: (ndim, count, radius)) -/
+def translateLookup (ndim : Nat) (v : Int) : Option Nat :=
+  (Generated.translateSizes.find? fun t => t.1 == ndim && (t.2.1 : Int) == v).map (·.2.2)
+
+/-- the cast `np.asanyarray(Bc, A.dtype)` of one integer/boolean entry: to bool `x != 0`, to an integer
+    dtype the value modulo `2^bits` (C conversion) -/
+def castTo (dt : DT) (x : Int) : Int :=
+  if dt.isBool then (if x ≠ 0 then 1 else 0) else dt.wrap x
+
+/-- the loop at the end of `get_structuring_elem`:
+    `Bc = np.zeros((3,)*d); for i in range(Bc.size): pos = np.unravel_index(i, Bc.shape); pos -= centre;`
+    `if np.sum(np.abs(pos)) <= max1: Bc.flat[i] = 1` (`centre` is all ones) -/
+def crossLoop (d : Nat) (max1 : Int) : Array Int :=
+  let shape := List.replicate d 3
+  (List.range (shapeSize shape)).foldl (fun bc i =>
+      let pos := unravelI shape i
+      if (pos.map fun x => ((x - 1).natAbs : Int)).foldl (· + ·) 0 ≤ max1 then bc.setIfInBounds i 1 else bc)
+    (Array.replicate (shapeSize shape) 0)
+
+/-- the tail of `get_structuring_elem` once `Bc` is an integer: the literal 3×3 cross for 2-D arrays and
+    `Bc == 1`, otherwise the loop -/
+def crossOfInt (ndim : Nat) (r : Int) : List Nat × Array Int :=
+  if ndim == 2 && r == 1 then ([3, 3], Generated.defaultCross.toArray)
+  else (List.replicate ndim 3, crossLoop ndim r)
+
+/-- `get_structuring_elem(A, Bc)` for an array `A` of dtype `dt` and rank `ndim`: the element's shape and its
+    entries in C order (the returned array is C-contiguous and of dtype `dt`), or the `ValueError` raised. -/
+def getStructuringElem (dt : DT) (ndim : Nat) (Bc : BcArg) : Except SEError (List Nat × Array Int) :=
+  match Bc with
+  | .none => .ok (crossOfInt ndim 1)
+  | .int v =>
+    match translateLookup ndim v with
+    | some r => .ok (crossOfInt ndim r)
+    | none => .ok (crossOfInt ndim v)
+  | .array bshape bc =>
+    if ndim != bshape.length then .error .rank
+    else
+      let bc := bc.map (castTo dt)
+      if shapeSize bshape == 0 then .error .empty
+      else .ok (bshape, bc)      -- `Bc.copy()` when not contiguous: same logical content
+
+/-! ### the C++ dispatch: `py_erode` / `py_dilate` (`_morph.cpp`) -/
+
+/-- the numpy flags of the input array that `PyArray_ISCARRAY` looks at -/
+structure ArrFlags where
+  cContiguous : Bool
+  aligned : Bool
+  writeable : Bool
+  notSwapped : Bool
+deriving DecidableEq, Repr
+
+/-- `PyArray_ISCARRAY(array)`: `NPY_ARRAY_CARRAY = C_CONTIGUOUS | ALIGNED | WRITEABLE`, native byte order -/
+def ArrFlags.isCArray (f : ArrFlags) : Bool := f.cContiguous && f.aligned && f.writeable && f.notSwapped
+
+inductive Path where
+  | fast | generic
+deriving DecidableEq, Repr
+
+/-- `numpy::check_type<bool>(array) && PyArray_NDIM(array) == 2 && PyArray_ISCARRAY(array)` -/
+def pathOf (dt : DT) (ndim : Nat) (fl : ArrFlags) : Path :=
+  if dt.isBool && ndim == 2 && fl.isCArray then .fast else .generic
+
+/-- `py_erode`: the fast binary branch (row loops) or the generic `erode<T>` (which compresses the footprint
+    for bool only) -/
+def erodeDispatch (dt : DT) (fl : ArrFlags) (A : Img Int) (bshape : List Nat) (bc : Array Int) : Array Int :=
+  match pathOf dt A.shape.length fl with
+  | .fast => fastErodeLoops A bshape bc
+  | .generic => erodeModel dt A (support bshape bc dt.isBool)
+
+/-- `py_dilate` -/
+def dilateDispatch (dt : DT) (fl : ArrFlags) (A : Img Int) (bshape : List Nat) (bc : Array Int) : Array Int :=
+  match pathOf dt A.shape.length fl with
+  | .fast => fastDilateLoops A bshape bc
+  | .generic => dilateModel dt A (support bshape bc dt.isBool)
+
+/-- `morph.erode(A, Bc)`: `get_structuring_elem`, then `_morph.erode` -/
+def erodePy (dt : DT) (fl : ArrFlags) (A : Img Int) (Bc : BcArg) : Except SEError (Array Int) :=
+  match getStructuringElem dt A.shape.length Bc with
+  | .error e => .error e
+  | .ok (bshape, bc) => .ok (erodeDispatch dt fl A bshape bc)
+
+/-- `morph.dilate(A, Bc)` -/
+def dilatePy (dt : DT) (fl : ArrFlags) (A : Img Int) (Bc : BcArg) : Except SEError (Array Int) :=
+  match getStructuringElem dt A.shape.length Bc with
+  | .error e => .error e
+  | .ok (bshape, bc) => .ok (dilateDispatch dt fl A bshape bc)
+
 /-! ### driver entry -/
+
+/-- protocol: `arg=none | arg=int v=<n> | arg=array bshape=… bc=…` -/
+def bcArgOf (a : Args) : BcArg :=
+  match a.str "arg" with
+  | "none" => .none
+  | "int" => .int (a.int "v")
+  | _ => .array (a.nats "bshape") (a.ints "bc").toArray
+
+/-- protocol: `flags=c,a,w,s` (0/1 each: C-contiguous, aligned, writeable, native byte order) -/
+def flagsOf (a : Args) : ArrFlags :=
+  match a.ints "flags" with
+  | [c, al, w, s] => { cContiguous := c != 0, aligned := al != 0, writeable := w != 0, notSwapped := s != 0 }
+  | _ => { cContiguous := false, aligned := false, writeable := false, notSwapped := false }
+
+def showSEError : SEError → String
+  | .rank => "rank"
+  | .empty => "empty"
 
 def handle (a : Args) : String :=
   let dt := DT.ofName (a.str "dt")
   let shape := a.nats "shape"
   let A : Img Int := { shape := shape, data := (a.ints "data").toArray }
-  let bshape := a.nats "bshape"
-  let bc := (a.ints "bc").toArray
+  -- the element: given as an array (`bshape`, `bc`), or — when `arg=` is present — whatever
+  -- `get_structuring_elem(A, Bc)` makes of the Python-level argument
+  let se : Except SEError (List Nat × Array Int) :=
+    if a.has "arg" then getStructuringElem dt (if a.has "ndim" then a.nat "ndim" else shape.length) (bcArgOf a)
+    else .ok (a.nats "bshape", (a.ints "bc").toArray)
+  match se with
+  | .error e => s!"error={showSEError e}"
+  | .ok (bshape, bc) =>
   let sup := support bshape bc dt.isBool
   let members := sup.filter (isMember dt)
+  -- `flags=` present: also print the path `py_erode`/`py_dilate` take and what they return
+  let disp (f : DT → ArrFlags → Img Int → List Nat → Array Int → Array Int) : String :=
+    if a.has "flags" then
+      let fl := flagsOf a
+      let p := match pathOf dt shape.length fl with | .fast => "fast" | .generic => "generic"
+      s!" path={p} dispatch={showInts (f dt fl A bshape bc).toList}"
+    else ""
   match a.str "kind" with
   | "erode" =>
     let spec := (allPos shape).map (erodeSpecAt dt A sup)
     let model := (erodeModel dt A sup).toList
     let fast := if dt.isBool && shape.length == 2 then (allPos shape).map (fastErodeAt A bshape bc) else model
     let loops := if dt.isBool && shape.length == 2 then (fastErodeLoops A bshape bc).toList else model
-    s!"spec={showInts spec} model={showInts model} fast={showInts fast} loops={showInts loops}"
+    s!"spec={showInts spec} model={showInts model} fast={showInts fast} loops={showInts loops}{disp erodeDispatch}"
   | "dilate" =>
     let spec := (allPos shape).map (dilateSpecAt dt A sup)
     let model := (dilateModel dt A sup).toList
@@ -258,7 +396,8 @@ def handle (a : Args) : String :=
     let loops := if dt.isBool && shape.length == 2 then (fastDilateLoops A bshape bc).toList else model
     let regular := starShaped bshape (members.map (·.1)) && flatHeights (members.map (·.2))
     let obs := (allPos shape).map fun q => regular || boxInterior shape bshape q
-    s!"spec={showInts spec} model={showInts model} fast={showInts fast} loops={showInts loops} obs={showBools obs}"
+    s!"spec={showInts spec} model={showInts model} fast={showInts fast} loops={showInts loops} obs={showBools obs}{disp dilateDispatch}"
+  | "getse" => s!"ok=1 bshape={showNats bshape} elem={showInts bc.toList}"
   | "cross" => s!"elem={showInts (crossElem (a.nat "d") (a.int "r")).toList}"
   | "disk" => s!"elem={showInts (diskElem (a.nat "d") (a.nat "r")).toList}"
   | k => s!"error=unknown-kind-{k}"
